@@ -170,7 +170,11 @@ type Op struct {
 	Perm  int    `json:"perm"`
 	User  int    `json:"user"`
 	On    bool   `json:"on"`
+	Say   int    `json:"say"` // scripted client (kind 3): stated levels, auth = Say%3, enc = Say/3%3 over OPTIONAL/PREFERRED/REQUIRED; key mode = Say/9%4
 }
+
+var sayLevels = []string{"OPTIONAL", "PREFERRED", "REQUIRED"}
+var badKeys = []kit.KeyMode{kit.KeyOmit, kit.KeyTruncated, kit.KeyRandom, kit.KeyGarbage}
 
 type Case struct {
 	Ops []Op `json:"ops"`
@@ -332,8 +336,8 @@ func runCase(cs Case) (string, stats) {
 			var herr error
 			c.cst = stream.NewStream(c.cc)
 			if kind == 3 {
-				plog, pst := kit.ScriptedClient(c.cc, kit.PeerOpts{AuthMethods: "CLAIMTOBE", CryptoMethods: "AES", SayAuth: "OPTIONAL", SayEnc: "OPTIONAL",
-					Key: kit.KeyOmit, Command: cmd, ClaimUser: osUser + "@verif.test"}, 2*time.Second)
+				plog, pst := kit.ScriptedClient(c.cc, kit.PeerOpts{AuthMethods: "CLAIMTOBE", CryptoMethods: "AES", SayAuth: sayLevels[op.Say%3], SayEnc: sayLevels[op.Say/3%3],
+					Key: badKeys[op.Say/9%4], Command: cmd, ClaimUser: osUser + "@verif.test"}, 2*time.Second)
 				herr = plog.Err
 				c.cst = pst
 				c.authed = plog.AuthCompleted != ""
@@ -533,7 +537,7 @@ func genCase(t *rapid.T) Case {
 		k := rapid.SampledFrom([]string{"run", "run", "run", "follow", "follow", "resume", "resume", "raw", "policy", "policy", "authz", "authz", "authorizer", "restart", "sidonly"}).Draw(t, "op")
 		c.Ops = append(c.Ops, Op{K: k, Cmd: rapid.IntRange(0, 6).Draw(t, "cmd"), Kind: rapid.IntRange(0, 3).Draw(t, "kind"), Keep: rapid.Bool().Draw(t, "keep"),
 			Auth: rapid.IntRange(0, 3).Draw(t, "auth"), Enc: rapid.IntRange(0, 3).Draw(t, "enc"), Integ: rapid.IntRange(0, 4).Draw(t, "integ") == 0,
-			Perm: rapid.IntRange(0, 2).Draw(t, "perm"), User: rapid.IntRange(0, 2).Draw(t, "user"), On: rapid.Bool().Draw(t, "on")})
+			Perm: rapid.IntRange(0, 2).Draw(t, "perm"), User: rapid.IntRange(0, 2).Draw(t, "user"), On: rapid.Bool().Draw(t, "on"), Say: rapid.IntRange(0, 35).Draw(t, "say")})
 	}
 	return c
 }
@@ -570,10 +574,16 @@ func TestC05Directed(t *testing.T) {
 			for second := 0; second < 7; second++ {
 				for _, strong := range []pol{{Auth: 0, Enc: 2}, {Auth: 2, Enc: 0}, {Auth: 2, Enc: 2, Integ: true}, {Auth: 0, Enc: 0}} {
 					// weak first command kept alive, then a follow-on whose policy is strong; then resume with the strong command; then a sid-only requester
-					cases = append(cases, Case{Ops: []Op{
-						{K: "policy", Cmd: second % 4, Auth: strong.Auth, Enc: strong.Enc, Integ: strong.Integ},
-						{K: "run", Cmd: first, Kind: kind, Keep: true}, {K: "follow", Cmd: second, Keep: true}, {K: "follow", Cmd: first},
-						{K: "resume", Cmd: second, Kind: kind}, {K: "sidonly", Cmd: second, Kind: kind}}})
+					says := []int{0}
+					if kind == 3 { // the scripted client also states every level pair, with each kind of unusable key
+						says = []int{0, 3, 6, 4, 8, 9 + 6, 18 + 3, 27 + 8}
+					}
+					for _, say := range says {
+						cases = append(cases, Case{Ops: []Op{
+							{K: "policy", Cmd: second % 4, Auth: strong.Auth, Enc: strong.Enc, Integ: strong.Integ},
+							{K: "run", Cmd: first, Kind: kind, Keep: true, Say: say}, {K: "follow", Cmd: second, Keep: true}, {K: "follow", Cmd: first},
+							{K: "resume", Cmd: second, Kind: kind}, {K: "sidonly", Cmd: second, Kind: kind}}})
+					}
 				}
 			}
 		}
